@@ -90,7 +90,7 @@ def run_translator():
     if p.returncode != 0:
         failed = dict(re.findall(r"FAILED (\w+): (.*)", out))
         if not failed:
-            failed = {"Resolve": out[-1500:], "Facts": out[-1500:], "Action": out[-1500:]}   # the translator itself did not run
+            failed = {"Resolve": out[-1500:], "Facts": out[-1500:], "Action": out[-1500:], "Driver": out[-1500:]}   # the translator itself did not run
         return False, failed
     return True, {}
 
@@ -150,7 +150,7 @@ def audit_sources():
 
 TRANSLATOR_ERROR = None
 # which regenerated fragments each proof module imports
-GEN_DEPS = {"Yv.Props.C04": ["Resolve"], "Yv.Props.C14": ["Facts"], "Yv.Props.C19": ["Facts"], "Yv.Props.C05c": ["Action"]}
+GEN_DEPS = {"Yv.Props.C04": ["Resolve"], "Yv.Props.C14": ["Facts"], "Yv.Props.C19": ["Facts"], "Yv.Props.C05c": ["Action"], "Yv.Props.C08b": ["Driver"]}
 TIER = "quick"
 
 
